@@ -366,6 +366,8 @@ class KindInferenceMapper(Mapper):
                     "is meaningless"
                     % type(self.rec(expr.exponent)).__name__)
 
+        return self.map_product_like((expr.base, expr.exponent))
+
     def map_generic_call(self, function_id, arg_dict, single_return_only=True):
         func = self.function_registry[function_id]
         arg_kinds = {}
